@@ -36,7 +36,8 @@ def get_local_var_idx(routine, var):
     for pname, ptype in routine.params.items():
         if var == pname:
             return idx
-        idx += get_type_size(context, ptype)
+        # every parameter is one cell holding a reference
+        idx += 1
     for vname, vtype in routine.local_vars.items():
         if var == vname:
             return idx
@@ -57,10 +58,9 @@ def get_global_var_idx(context, var):
 def get_params_size(routine):
     # the number of cells in a call frame the parameters to a routine
     # need
-    return sum(
-        get_type_size(routine.context, ptype)
-        for ptype in routine.params.values()
-    )
+    # every parameter, whatever its type, is one cell holding a reference
+    # to the argument
+    return len(routine.params)
 
 def get_local_vars_size(routine):
     # the number of cells in a call frame the local variables of
